@@ -53,13 +53,19 @@ theorem block_simN {L iter : List String} {mr : MR St} {sr : SR St} (h : Sim [] 
       cases o with
       | empty => simp [isBreakIn, SimN]; exact kindrel_weaken (by simp) h3
       | val v => simp [isBreakIn, SimN]; exact kindrel_weaken (by simp) h3
-      | cont t => simp [isBreakIn, SimN]; exact kindrel_weaken (by simp) h3
+      | cont t x => simp [isBreakIn, SimN]; exact kindrel_weaken (by simp) h3
       | ret v => simp [isBreakIn, SimN]; exact kindrel_weaken (by simp) h3
-      | brk t =>
-        simp only [KindRel] at h3
+      | brk t x =>
+        have h31 := h3.1; have h32 := h3.2
+        simp only [KindRelT] at h31
+        simp only [ovVal] at h32
         by_cases ht : t ∈ L
-        · simp [isBreakIn, ht, SimN, KindRel, h3]
-        · simp [isBreakIn, ht, SimN, KindRel, h3]
+        · simp only [isBreakIn, List.contains_iff_mem, ht, if_true, SimN, true_and]
+          cases x with
+          | none => exact ⟨by simp only [carried, KindRelT]; exact Or.inr ⟨t, h31, ht⟩, by simpa [carried, ovVal] using h32⟩
+          | some w => exact ⟨by simp only [carried, KindRelT]; exact Or.inr ⟨t, h31, ht⟩, by simpa [carried, ovVal] using h32⟩
+        · simp only [isBreakIn, List.contains_iff_mem, ht, if_false, SimN, true_and]
+          exact ⟨by simpa [KindRelT] using h31, by simpa [ovVal] using h32⟩
 
 /-- labelled statement (with fix a0ba018) -/
 theorem label_sim {L iter : List String} {l : String} {mr : MR St} {sr : SR St}
@@ -84,51 +90,63 @@ theorem label_sim {L iter : List String} {l : String} {mr : MR St} {sr : SR St}
       subst h1
       have hp := labok_pop h2
       simp only [labelWrap, sLabelWrap]
+      have h31 := h3.1; have h32 := h3.2
       cases o with
-      | brk t =>
-        simp only [KindRel] at h3
+      | brk t x =>
+        simp only [KindRelT] at h31
+        simp only [ovVal] at h32
         by_cases ht : t = l
-        · subst ht; simp [isBreakIn, h3, Sim, hp, KindRel]
-        · have : ¬ (c.t = CT.brk l) := by rw [h3]; intro hc; injection hc with hc; exact ht hc
-          simp [isBreakIn, ht, Sim, hp, KindRel, h3]
-      | cont t =>
-        simp only [KindRel] at h3
-        have : ¬ (c.t = CT.brk l) := by rw [h3.1]; intro hc; cases hc
-        simp [isBreakIn, Sim, hp, KindRel, h3]
+        · subst ht
+          simp only [isBreakIn, List.contains_iff_mem, List.mem_singleton, if_true, h31, Sim, true_and]
+          refine ⟨hp, ?_⟩
+          cases x with
+          | none => exact ⟨by simp [carried, KindRelT], by simpa [carried, ovVal] using h32⟩
+          | some w => exact ⟨by simp [carried, KindRelT], by simpa [carried, ovVal] using h32⟩
+        · have hne : ¬ (c.t = CT.brk l) := by rw [h31]; intro hc; injection hc with hc; exact ht hc
+          simp only [isBreakIn, List.contains_iff_mem, List.mem_singleton, ht, if_false, hne, Sim, true_and]
+          exact ⟨hp, by simpa [KindRelT] using h31, by simpa [ovVal] using h32⟩
+      | cont t x =>
+        simp only [KindRelT] at h31
+        have hne : ¬ (c.t = CT.brk l) := by rw [h31.1]; intro hc; cases hc
+        simp only [isBreakIn, Bool.false_eq_true, if_false, hne, Sim, true_and]
+        exact ⟨hp, by simpa [KindRelT] using h31, h32⟩
       | ret v =>
-        simp only [KindRel] at h3
-        have : ¬ (c.t = CT.brk l) := by rw [h3.1]; intro hc; cases hc
-        simp [isBreakIn, Sim, hp, KindRel, h3]
+        simp only [KindRelT] at h31
+        have hne : ¬ (c.t = CT.brk l) := by rw [h31]; intro hc; cases hc
+        simp only [isBreakIn, Bool.false_eq_true, if_false, hne, Sim, true_and]
+        exact ⟨hp, by simpa [KindRelT] using h31, h32⟩
       | empty =>
-        simp only [KindRel] at h3
+        simp only [KindRelT] at h31
         simp only [isBreakIn, Bool.false_eq_true, if_false]
         by_cases hc : c.t = CT.brk l
-        · simp [hc, Sim, hp, KindRel]
+        · simp only [hc, if_true, Sim, true_and]
+          exact ⟨hp, by simp [KindRelT], h32⟩
         · simp only [hc, if_false, Sim]
-          refine ⟨trivial, hp, ?_⟩
-          simp only [KindRel]
-          rcases h3 with h3 | ⟨t, h3, h4⟩
-          · exact Or.inl h3
+          refine ⟨trivial, hp, ?_, h32⟩
+          simp only [KindRelT]
+          rcases h31 with g3 | ⟨t, g3, g4⟩
+          · exact Or.inl g3
           · right
-            refine ⟨t, h3, ?_⟩
-            rcases List.mem_append.mp h4 with h5 | h5
-            · exact h5
-            · simp at h5; subst h5; exact absurd h3 hc
+            refine ⟨t, g3, ?_⟩
+            rcases List.mem_append.mp g4 with g5 | g5
+            · exact g5
+            · simp at g5; subst g5; exact absurd g3 hc
       | val v =>
-        simp only [KindRel] at h3
+        simp only [KindRelT] at h31
         simp only [isBreakIn, Bool.false_eq_true, if_false]
         by_cases hc : c.t = CT.brk l
-        · simp [hc, Sim, hp, KindRel]
+        · simp only [hc, if_true, Sim, true_and]
+          exact ⟨hp, by simp [KindRelT], h32⟩
         · simp only [hc, if_false, Sim]
-          refine ⟨trivial, hp, ?_⟩
-          simp only [KindRel]
-          rcases h3 with h3 | ⟨t, h3, h4⟩
-          · exact Or.inl h3
+          refine ⟨trivial, hp, ?_, h32⟩
+          simp only [KindRelT]
+          rcases h31 with g3 | ⟨t, g3, g4⟩
+          · exact Or.inl g3
           · right
-            refine ⟨t, h3, ?_⟩
-            rcases List.mem_append.mp h4 with h5 | h5
-            · exact h5
-            · simp at h5; subst h5; exact absurd h3 hc
+            refine ⟨t, g3, ?_⟩
+            rcases List.mem_append.mp g4 with g5 | g5
+            · exact g5
+            · simp at g5; subst g5; exact absurd g3 hc
 
 
 theorem simN_weaken_nil {L iter : List String} {mr : MR St} {sr : SR St} (h : SimN [] iter mr sr) :
@@ -264,61 +282,57 @@ theorem finally_simN {L iter : List String} (hasFin : Bool)
               simp [hn, SimN]
 
 
-/-- running switch clauses vs the CaseBlock's completion -/
-def ClauseRel (labels iter : List String) : BR St → SR St → Prop
-  | .next r L' σ, .ok c σ' => σ = σ' ∧ L' = [] ∧ c.t = .normal ∧ isResult r = false
-  | .brk _ L' σ, .ok c σ' => σ = σ' ∧ L' = [] ∧ ∃ t, c.t = .brk t ∧ t ∈ labels
-  | .retv o L' σ, .ok c σ' => σ = σ' ∧ L' = [] ∧ KindRel [] iter o c ∧ isResult o = true ∧
-        (∀ t, o = .brk t → t ∉ labels)
+/-- running switch clauses vs the completion of a clause's statement list; `V` = the CaseBlock's value so far -/
+def ClauseRel (labels iter : List String) (V : Option Val) : BR St → SR St → Prop
+  | .next r L' σ, .ok c σ' => σ = σ' ∧ L' = [] ∧ c.t = .normal ∧ isResult r = false ∧ ovVal r = pick c.v V
+  | .brk r L' σ, .ok c σ' => σ = σ' ∧ L' = [] ∧ (∃ t, c.t = .brk t ∧ t ∈ labels) ∧ isResult r = false ∧ ovVal r = pick c.v V
+  | .retv o L' σ, .ok c σ' => σ = σ' ∧ L' = [] ∧ KindRel [] iter o ⟨c.t, pick c.v V⟩ ∧ isResult o = true ∧
+        (∀ t x, o = .brk t x → t ∉ labels)
   | .throw v L' σ, .throw v' σ' => v = v' ∧ σ = σ' ∧ L' = []
   | .fuel, _ => True
   | _, .fuel => True
   | _, _ => False
 
-theorem clauserel_fuel_r (labels iter : List String) (br : BR St) : ClauseRel labels iter br .fuel := by
+theorem clauserel_fuel_r (labels iter : List String) (V : Option Val) (br : BR St) : ClauseRel labels iter V br .fuel := by
   cases br <;> simp [ClauseRel]
-
-theorem clauserel_list_wrap {labels iter : List String} {br : BR St} {sr : SR St} (x : Option Val)
-    (h : ClauseRel labels iter br sr) : ClauseRel labels iter br (listWrap x sr) := by
-  cases br <;> cases sr <;> simp only [ClauseRel, listWrap] at h ⊢ <;> try exact h
-  obtain ⟨h1, h2, h3, h4⟩ := h
-  exact ⟨h1, h2, kindrel_pick x h3, h4⟩
 
 section
 variable (S : Sem St)
 
-def PClause (n : Nat) : Prop := ∀ m ss labels iter σ result, wlList iter ss = true → isResult result = false →
-    ClauseRel labels iter (ottoClause S n ss labels [] σ result) (specList S m ss σ)
+def PClause (n : Nat) : Prop := ∀ m ss labels iter σ result P V, wlList iter ss = true → isResult result = false →
+    ovVal result = pick P V →
+    ClauseRel labels iter V (ottoClause S n ss labels [] σ result) (listWrap P (specList S m ss σ))
 
 def PCases (n : Nat) : Prop := ∀ m cs labels iter σ result V, wlCases iter cs = true → isResult result = false →
-    ClauseRel labels iter (ottoCases S n cs labels [] σ result) (specCases S m cs σ V)
+    ovVal result = V →
+    ClauseRel labels iter none (ottoCases S n cs labels [] σ result) (specCases S m cs σ V)
 
 theorem pclause_step (n : Nat) (hS : PS S n) (hC : PClause S n) : PClause S (n+1) := by
-  intro m ss labels iter σ result hwl hres
+  intro m ss labels iter σ result P V hwl hres hinv
   cases m with
-  | zero => simp only [specList]; exact clauserel_fuel_r _ _ _
+  | zero => simp only [specList, listWrap]; exact clauserel_fuel_r _ _ _ _
   | succ m =>
     cases ss with
-    | nil => simp [ottoClause, specList, ClauseRel, hres]
+    | nil => simp only [ottoClause, specList, listWrap, ClauseRel, pick, true_and]; exact ⟨hres, hinv⟩
     | cons s ss =>
       simp only [wlList, Bool.and_eq_true] at hwl
-      have ih := hS m s [] [] iter σ (by simp) (by simp) hwl.1
+      have ih := hS m s [] [] iter σ (by simp) (by simp) (by simp) hwl.1
       simp only [ottoClause, specList]
       cases hm : ottoS S n s [] σ with
       | fuel => simp [ClauseRel]
       | throw v L' σ' =>
         cases hs : specS S m [] s σ with
-        | fuel => exact clauserel_fuel_r _ _ _
+        | fuel => simp only [listWrap]; exact clauserel_fuel_r _ _ _ _
         | ok c σ2 => rw [hm, hs] at ih; simp [Sim] at ih
         | throw v2 σ2 =>
           rw [hm, hs] at ih
           simp only [Sim] at ih
           obtain ⟨h1, h2, h3⟩ := ih
           subst h1; subst h2
-          simp [ClauseRel, labok_of_nil h3]
+          simp [ClauseRel, listWrap, labok_of_nil h3]
       | ok o L' σ' =>
         cases hs : specS S m [] s σ with
-        | fuel => exact clauserel_fuel_r _ _ _
+        | fuel => simp only [listWrap]; exact clauserel_fuel_r _ _ _ _
         | throw v2 σ2 => rw [hm, hs] at ih; simp [Sim] at ih
         | ok c σ2 =>
           rw [hm, hs] at ih
@@ -330,81 +344,105 @@ theorem pclause_step (n : Nat) (hS : PS S n) (hC : PClause S n) : PClause S (n+1
           cases hr : isResult o with
           | true =>
             have hab := kindrel_result_abrupt hr hk
-            simp only [hr, hab, if_true]
+            simp only [hr, hab, if_true, listWrap]
+            have hk1 := hk.1
+            have hcarr : KindRel [] iter (carrying o result) ⟨c.t, pick (pick c.v P) V⟩ := by
+              refine ⟨?_, ?_⟩
+              · have := carrying_kind (r := result) hk.1
+                cases hco : carrying o result <;> rw [hco] at this <;> simpa [KindRelT] using this
+              · rw [ovVal_carrying hr hres, hk.2, hinv, pick_assoc]
             cases o with
             | empty => simp [isResult] at hr
             | val v => simp [isResult] at hr
-            | ret v => simp [isBreakIn, ClauseRel, hk, isResult]
-            | cont t => simp [isBreakIn, ClauseRel, hk, isResult]
-            | brk t =>
-              simp only [KindRel] at hk
+            | ret v =>
+              simp only [isBreakIn, Bool.false_eq_true, if_false, ClauseRel, true_and]
+              refine ⟨hcarr, by rw [carrying_isResult]; rfl, ?_⟩
+              intro t x h; cases r : result <;> rw [r] at h <;> simp [carrying] at h
+            | cont t x =>
+              simp only [isBreakIn, Bool.false_eq_true, if_false, ClauseRel, true_and]
+              refine ⟨hcarr, by rw [carrying_isResult]; rfl, ?_⟩
+              intro t' x' h
+              obtain ⟨y, hy⟩ := carrying_cont t x result
+              rw [hy] at h; cases h
+            | brk t x =>
+              simp only [KindRelT] at hk1
               by_cases ht : t ∈ labels
-              · simp [isBreakIn, ht, ClauseRel, hk]
-              · simp [isBreakIn, ht, ClauseRel, hk, isResult, KindRel]
+              · simp only [isBreakIn, List.contains_iff_mem, ht, if_true, ClauseRel, true_and]
+                refine ⟨⟨t, hk1, ht⟩, carried_nonresult hres, ?_⟩
+                rw [ovVal_carried hr (by intro v h; cases h), hk.2, hinv, pick_assoc]
+              · simp only [isBreakIn, List.contains_iff_mem, ht, if_false, ClauseRel, true_and]
+                refine ⟨hcarr, by rw [carrying_isResult]; rfl, ?_⟩
+                intro t' x' h
+                obtain ⟨y, hy⟩ := carrying_brk t x result
+                rw [hy] at h; cases h; exact ht
           | false =>
             have hn := kindrel_nil_normal hr hk
             have hab : c.abrupt = false := by simp [Comp.abrupt, hn]
             simp only [hr, hab, Bool.false_eq_true, if_false]
-            exact clauserel_list_wrap c.v (hC m ss labels iter σ' (nextResult o result) hwl.2
-              (nextResult_notResult hr hres))
+            rw [listWrap_listWrap]
+            exact hC m ss labels iter σ' (nextResult o result) (pick c.v P) V hwl.2
+              (nextResult_notResult hr hres) (by rw [ovVal_nextResult hr, hk.2, hinv, pick_assoc])
 
 theorem pcases_step (n : Nat) (hCl : PClause S n) (hC : PCases S n) : PCases S (n+1) := by
-  intro m cs labels iter σ result V hwl hres
+  intro m cs labels iter σ result V hwl hres hV
+  subst hV
   cases m with
-  | zero => simp only [specCases]; exact clauserel_fuel_r _ _ _
+  | zero => simp only [specCases]; exact clauserel_fuel_r _ _ _ _
   | succ m =>
     cases cs with
-    | nil => simp [ottoCases, specCases, ClauseRel, hres]
+    | nil => simp [ottoCases, specCases, ClauseRel, hres, pick_none_r]
     | cons test body cs =>
       simp only [wlCases, Bool.and_eq_true] at hwl
-      have ih := hCl m body labels iter σ result hwl.1 hres
+      have ih := hCl m body labels iter σ result none (ovVal result) hwl.1 hres rfl
+      rw [listWrap_none] at ih
       simp only [ottoCases, specCases]
       cases hm : ottoClause S n body labels [] σ result with
       | fuel => simp [ClauseRel]
       | cont r L' σ' =>
         cases hs : specList S m body σ <;> rw [hm, hs] at ih <;> simp [ClauseRel] at ih
-        exact clauserel_fuel_r _ _ _
+        exact clauserel_fuel_r _ _ _ _
       | throw v L' σ' =>
         cases hs : specList S m body σ with
-        | fuel => exact clauserel_fuel_r _ _ _
+        | fuel => exact clauserel_fuel_r _ _ _ _
         | ok c σ2 => rw [hm, hs] at ih; simp [ClauseRel] at ih
-        | throw v2 σ2 => rw [hm, hs] at ih; simpa using ih
+        | throw v2 σ2 => rw [hm, hs] at ih; simpa [ClauseRel] using ih
       | next r L' σ' =>
         cases hs : specList S m body σ with
-        | fuel => exact clauserel_fuel_r _ _ _
-        | throw v2 σ2 => rw [hm, hs] at ih; simp [ClauseRel] at ih
-        | ok R σ2 =>
-          rw [hm, hs] at ih
-          simp only [ClauseRel] at ih
-          obtain ⟨h1, h2, h3, h4⟩ := ih
-          subst h1; subst h2
-          have hab : R.abrupt = false := by simp [Comp.abrupt, h3]
-          simp only [hab, Bool.false_eq_true, if_false]
-          exact hC m cs labels iter σ' r _ hwl.2 h4
-      | brk r L' σ' =>
-        cases hs : specList S m body σ with
-        | fuel => exact clauserel_fuel_r _ _ _
-        | throw v2 σ2 => rw [hm, hs] at ih; simp [ClauseRel] at ih
-        | ok R σ2 =>
-          rw [hm, hs] at ih
-          simp only [ClauseRel] at ih
-          obtain ⟨h1, h2, t, h3, h4⟩ := ih
-          subst h1; subst h2
-          have hab : R.abrupt = true := by simp [Comp.abrupt, h3]
-          simp only [hab, if_true, ClauseRel]
-          exact ⟨trivial, trivial, t, h3, h4⟩
-      | retv o L' σ' =>
-        cases hs : specList S m body σ with
-        | fuel => exact clauserel_fuel_r _ _ _
+        | fuel => exact clauserel_fuel_r _ _ _ _
         | throw v2 σ2 => rw [hm, hs] at ih; simp [ClauseRel] at ih
         | ok R σ2 =>
           rw [hm, hs] at ih
           simp only [ClauseRel] at ih
           obtain ⟨h1, h2, h3, h4, h5⟩ := ih
           subst h1; subst h2
-          have hab := kindrel_result_abrupt h4 h3
-          simp only [hab, if_true, ClauseRel]
-          exact ⟨trivial, trivial, kindrel_pick V h3, h4, h5⟩
+          have hab : R.abrupt = false := by simp [Comp.abrupt, h3]
+          simp only [hab, Bool.false_eq_true, if_false]
+          exact hC m cs labels iter σ' r _ hwl.2 h4 h5
+      | brk r L' σ' =>
+        cases hs : specList S m body σ with
+        | fuel => exact clauserel_fuel_r _ _ _ _
+        | throw v2 σ2 => rw [hm, hs] at ih; simp [ClauseRel] at ih
+        | ok R σ2 =>
+          rw [hm, hs] at ih
+          simp only [ClauseRel] at ih
+          obtain ⟨h1, h2, ⟨t, h3, h4⟩, h5, h6⟩ := ih
+          subst h1; subst h2
+          have hab : R.abrupt = true := by simp [Comp.abrupt, h3]
+          simp only [hab, if_true, ClauseRel, pick_none_r, true_and]
+          exact ⟨⟨t, h3, h4⟩, h5, h6⟩
+      | retv o L' σ' =>
+        cases hs : specList S m body σ with
+        | fuel => exact clauserel_fuel_r _ _ _ _
+        | throw v2 σ2 => rw [hm, hs] at ih; simp [ClauseRel] at ih
+        | ok R σ2 =>
+          rw [hm, hs] at ih
+          simp only [ClauseRel] at ih
+          obtain ⟨h1, h2, h3, h4, h5⟩ := ih
+          subst h1; subst h2
+          have hab : R.abrupt = true := kindrel_result_abrupt (c := ⟨R.t, pick R.v (ovVal result)⟩) h4 h3
+          have hab' : R.abrupt = true := by simpa [Comp.abrupt] using hab
+          simp only [hab', if_true, ClauseRel, pick_none_r, true_and]
+          exact ⟨h3, h4, h5⟩
 
 end
 
@@ -446,7 +484,7 @@ theorem findCase_eq (S : Sem St) (dv : Val) : ∀ (cs : Cases) (i : Nat) (σ : S
       · simp only [h, if_false]; exact findCase_eq S dv cs (i+1) σ'
 
 theorem switch_sim {L ls iter : List String} (H1 : ∀ t ∈ ls, t ∈ L)
-    {br : BR St} {sr : SR St} (h : ClauseRel (L ++ [""]) iter br sr) :
+    {br : BR St} {sr : SR St} (h : ClauseRel (L ++ [""]) iter none br sr) :
     Sim L iter (switchWrap br) (sSwitchWrap ("" :: ls) sr) := by
   cases br with
   | fuel => simp [switchWrap, Sim]
@@ -465,54 +503,56 @@ theorem switch_sim {L ls iter : List String} (H1 : ∀ t ∈ ls, t ∈ L)
     | fuel => exact sim_fuel_r _ _ _
     | throw v2 σ2 => simp [ClauseRel] at h
     | ok c σ2 =>
-      simp only [ClauseRel] at h
-      obtain ⟨h1, h2, h3, h4⟩ := h
+      simp only [ClauseRel, pick_none_r] at h
+      obtain ⟨h1, h2, h3, h4, h5⟩ := h
       subst h1; subst h2
       simp only [switchWrap, sSwitchWrap, h3]
-      exact sim_ok _ (labok_nil _) (kindrel_nonresult_normal h4 h3)
+      exact sim_ok _ (labok_nil _) (kindrel_nonresult_normal h4 h3 h5)
   | brk r L' σ =>
     cases sr with
     | fuel => exact sim_fuel_r _ _ _
     | throw v2 σ2 => simp [ClauseRel] at h
     | ok c σ2 =>
-      simp only [ClauseRel] at h
-      obtain ⟨h1, h2, t, h3, h4⟩ := h
+      simp only [ClauseRel, pick_none_r] at h
+      obtain ⟨h1, h2, ⟨t, h3, h4⟩, h5, h6⟩ := h
       subst h1; subst h2
       simp only [switchWrap, sSwitchWrap, h3]
       by_cases hin : ("" :: ls).contains t = true
       · simp only [hin, if_true]
-        exact sim_ok _ (labok_nil _) (by simp [KindRel])
+        exact sim_ok _ (labok_nil _) (kindrel_nonresult_normal h5 rfl h6)
       · simp only [hin]
         have htL : t ∈ L := by
           simp only [List.contains_iff_mem, List.mem_cons, not_or] at hin
           rcases List.mem_append.mp h4 with h7 | h7
           · exact h7
           · simp at h7; exact absurd h7 hin.1
-        exact sim_ok _ (labok_nil _) (by simp only [KindRel]; exact Or.inr ⟨t, h3, htL⟩)
+        refine sim_ok _ (labok_nil _) ⟨?_, h6⟩
+        cases r <;> simp [isResult] at h5 <;> simp only [KindRelT] <;> exact Or.inr ⟨t, h3, htL⟩
   | retv o L' σ =>
     cases sr with
     | fuel => exact sim_fuel_r _ _ _
     | throw v2 σ2 => simp [ClauseRel] at h
     | ok c σ2 =>
-      simp only [ClauseRel] at h
+      simp only [ClauseRel, pick_none_r] at h
       obtain ⟨h1, h2, hk, hres, hb⟩ := h
       subst h1; subst h2
       simp only [switchWrap]
+      have hk1 := hk.1
       cases o with
       | empty => simp [isResult] at hres
       | val v => simp [isResult] at hres
       | ret v =>
-        simp only [KindRel] at hk
-        simp only [sSwitchWrap, hk.1]
-        exact sim_ok _ (labok_nil _) (by simp [KindRel, hk])
-      | cont t =>
-        simp only [KindRel] at hk
-        simp only [sSwitchWrap, hk.1]
-        exact sim_ok _ (labok_nil _) (by simp only [KindRel]; exact hk)
-      | brk t =>
-        simp only [KindRel] at hk
+        simp only [KindRelT] at hk1
+        simp only [sSwitchWrap, hk1]
+        exact sim_ok _ (labok_nil _) ⟨by simp [KindRelT, hk1], hk.2⟩
+      | cont t x =>
+        simp only [KindRelT] at hk1
+        simp only [sSwitchWrap, hk1.1]
+        exact sim_ok _ (labok_nil _) ⟨by simp only [KindRelT]; exact hk1, hk.2⟩
+      | brk t x =>
+        simp only [KindRelT] at hk1
         have hnin : ("" :: ls).contains t = false := by
-          have := hb t rfl
+          have := hb t x rfl
           simp only [List.mem_append, not_or] at this
           apply Bool.eq_false_iff.mpr
           intro hcon
@@ -520,7 +560,7 @@ theorem switch_sim {L ls iter : List String} (H1 : ∀ t ∈ ls, t ∈ L)
           rcases hcon with h | h
           · exact this.2 (by simp [h])
           · exact this.1 (H1 t h)
-        simp only [sSwitchWrap, hk, hnin, Bool.false_eq_true, if_false]
-        exact sim_ok _ (labok_nil _) (by simp [KindRel, hk])
+        simp only [sSwitchWrap, hk1, hnin, Bool.false_eq_true, if_false]
+        exact sim_ok _ (labok_nil _) ⟨by simp [KindRelT, hk1], hk.2⟩
 
 end OttoVerif.C01
